@@ -81,8 +81,8 @@ type WalkEnv struct {
 	kset   map[string]uint32
 	Init   map[string]uint32 // initial kind sets of named symbols (entry assumptions)
 	Suffix map[string]uint32 // initial kind sets by key suffix (values read back from fields)
-	Sites map[ssa.Instruction]*ReflectSite
-	nextN map[string]int
+	Sites  map[ssa.Instruction]*ReflectSite
+	nextN  map[string]int
 }
 
 func NewWalkEnv(p *Prog) *WalkEnv {
@@ -488,7 +488,6 @@ func (w *WalkEnv) install() {
 
 // KSnapshot returns the kind set currently associated with a key (for events).
 func (w *WalkEnv) KSnapshot(key string) uint32 { return w.get(key) }
-
 
 func clampKind(k int64) int {
 	if k < 0 {
